@@ -39,6 +39,9 @@ class Quiescence(object):
         s = rec["after"]
         if op["op"] == "req" and op["status"] in ("pausing", "paused") and not rec["rejected"]:
             self.pause_seen = True
+        if op["op"] == "req" and not rec["rejected"] and getattr(drv, "unstarted", None):
+            # the request landed between an offer and the first report of the offered action
+            self.special.add("request-before-first-report")
         if op["op"] in ("req", "rerun") and not rec["rejected"] and (op["op"] == "rerun" or op["status"] in ("resuming", "running")):
             # an accepted resume (or rerun) uses the pause request up: being paused afterwards needs a new one
             self.pause_seen = False
@@ -126,7 +129,16 @@ def strat_items(tier):
     from hypothesis import strategies as st
 
     base = gen.directed_scenario(gen.items_siblings_ir(), flags=FLAGS, controls=CONTROLS, max_choices=60, canceled=True)
-    return st.builds(lambda s, rr: dict(s, rerun=rr), base, st.booleans())
+    # in a third of the runs the first status report of a dispatched action is made late (any time before
+    # the provider polls again), so that requests and other reports land between an offer and that report
+    def build(s, rr, lz, pos, kind):
+        if lz:
+            return dict(s, rerun=rr)
+        # an early request: right after the first poll only some of the offered actions have reported
+        ctl = sorted(s["controls"] + ([[pos, kind]] if kind else []))
+        return dict(s, rerun=rr, controls=ctl, flags=dict(s["flags"], lazy=1, eager_poll=0))
+
+    return st.builds(build, base, st.booleans(), st.integers(0, 2), st.integers(2, 5), st.sampled_from(["pause", "pause", "cancel", None]))
 
 
 PARTS = [
